@@ -10,5 +10,5 @@ for d in seeded/$p/m*; do
   if [ ! -f "$d/confirmed.txt" ]; then lib/seedconfirm.sh "$d" "$pkg" "^($rx)\$" > "$d/confirm.log" 2>&1; fi
   tail -1 "$d/confirmed.txt" | sed "s|^|$d confirm: |"
   if [ ! -f "$d/result.txt" ]; then sh lib/seedtest.sh $p "$d/patch.diff" quick > "$d/result.txt" 2>&1; fi
-  if grep -q "^VIOLATION" "$d/result.txt" && ! grep -q "DOES NOT APPLY" "$d/result.txt"; then echo "$d check: CAUGHT $(grep -c '^VIOLATION' $d/result.txt) ($(grep -m1 'violation:' $d/result.txt | cut -c1-150))"; else echo "$d check: MISSED"; fi
+  if grep -qE "^VIOLATION|violation\(s\)" "$d/result.txt" && ! grep -q "DOES NOT APPLY" "$d/result.txt"; then echo "$d check: CAUGHT $(grep -c '^VIOLATION' $d/result.txt) ($(grep -m1 'violation:' $d/result.txt | cut -c1-150))"; else echo "$d check: MISSED"; fi
 done
